@@ -26,7 +26,7 @@ fn as_event(bytes: &[u8]) -> &Event {
 //@ unwindset: put_bytes=80; heed::bytes_=260; heed::Table=6; memcmp.0=80; repeat::Repeat=190; Repeat.*try_fold=190; enc_tags=8; c17_lmdb=12; mirror=12
 //@ cbmc: --max-field-sensitivity-array-size 1100
 //@ encodes: Lmdb::index, Lmdb::deindex, Lmdb::deindex_id, key_ci_index, key_ac_index, key_akc_index, key_tc_index, key_atc_index, key_ktc_index, Event::tags, Tags::iter
-//@ bounds: one event (fixed id and author, kind 7, created_at 4105); _letter: the single tag [L ab] with L an ARBITRARY one-byte tag name (either case, digits, any byte); _repeated_tag: the tags [e ab] [e ab] (the same indexable tag twice: the second put overwrites, the second delete finds nothing) - an indexable tag, the same tag REPEATED, a name without value and an empty tag. After Lmdb::index: the id, time, author and author-kind tables hold 1 entry each and the three tag tables hold equally many (the repeated tag shares its key); after Lmdb::deindex and Lmdb::deindex_id in the same transaction every table is empty again
+//@ bounds: one event (fixed id and author, kind 7, created_at 4105); _letter: the single tag [L ab] with L an ARBITRARY one-byte tag name (either case, digits, any byte); _repeated_tag: the tags [e ab] [e ab] (the same indexable tag twice: the second put overwrites, the second delete finds nothing). After Lmdb::index: the id, time, author and author-kind tables hold 1 entry each and the three tag tables hold equally many (the repeated tag shares its key); after Lmdb::deindex and Lmdb::deindex_id in the same transaction every table is empty again
 //@ outside: several events; values longer than 2 bytes; the Store-level wrappers (remove_event etc.: thorough tier)
 //@ assumes: heed model (put/delete/len inside one write transaction)
 fn mirror(sym_time: bool, sym_kind: bool, sym_value: bool, sym_letter: bool, shape: u8, fixed_letter: u8) {
@@ -99,6 +99,19 @@ mirror_harness!(c17_lmdb_mirror_repeated_tag, false, false, false, false, 2);
 //@ assumes: heed model (put/delete/len inside one write transaction)
 mirror_harness!(c17_lmdb_mirror_upper, false, false, false, false, 1, b'E');
 mirror_harness!(c17_lmdb_mirror_digit, false, false, false, false, 1, b'7');
+
+//@ harness: c17_lmdb_mirror_mixed
+//@ tier: thorough
+//@ timeout: 1500
+//@ mem: 20
+//@ covers: any
+//@ unwindset: put_bytes=80; heed::bytes_=260; heed::Table=6; memcmp.0=80; repeat::Repeat=190; Repeat.*try_fold=190; enc_tags=8; c17_lmdb=12; mirror=12
+//@ cbmc: --max-field-sensitivity-array-size 1100
+//@ encodes: Lmdb::index, Lmdb::deindex, Lmdb::deindex_id and the six key builders
+//@ bounds: constant twin of c17_lmdb_index_deindex_mirror: the four tags [e ab] [e ab] [q] [] (an indexable tag, the same tag repeated, a name WITHOUT value and an EMPTY tag) on one event with constant fields: the tag tables hold one entry each after index, every table is empty after deindex + deindex_id
+//@ outside: arbitrary field values (c17_lmdb_index_deindex_mirror, which has not finished so far)
+//@ assumes: heed model (put/delete/len inside one write transaction)
+mirror_harness!(c17_lmdb_mirror_mixed, false, false, false, false, 0);
 
 //@ harness: c17_lmdb_index_deindex_mirror
 //@ tier: thorough
